@@ -99,6 +99,7 @@ def build():
         return isinstance(a, Opaque) and isinstance(b, Opaque) and a.tag == b.tag == "sorted" and a.attrs["ms"] == b.attrs["ms"]
 
     p.spec_funcs["same_token"] = same_token
+    p.spec_funcs["is_tag"] = lambda interp, o, tag: isinstance(o, Opaque) and o.tag == tag
     p.spec_funcs["ev"] = lambda i, k: i.ctx.events[k] if isinstance(k, int) and 0 <= k < len(i.ctx.events) else ("<none>", None)
     p.spec_funcs["n_ev"] = lambda i: len(i.ctx.events)
     p.spec_funcs["seq_of"] = lambda i, obj: obj.fields.get("_sequence") if hasattr(obj, "fields") else None
@@ -135,8 +136,10 @@ def build():
     # ---- memoize: str / bytes are never memoised (equal strings at different addresses hash alike); everything else deferred unchanged
     p.add(Contract(
         H, "Hasher.memoize", props=["C08"], globals=glob,
-        params=dict(self=hasher(), obj=OneOf(STR, BYTES, OpaqueOf("otherobj"))),
+        params=dict(self=hasher(), obj=OneOf(STR, BYTES, OpaqueOf("tuple_or_frozenset"), OpaqueOf("otherobj"))),
         ensures={"strings_never_memoised": "implies(isinstance(obj, (bytes, str)), n_ev() == 0)",
+                 # a pure function of the value cannot depend on whether two equal immutable values are one object or two (known finding K8)
+                 "immutable_containers_never_memoised_by_identity": "implies(is_tag(obj, 'tuple_or_frozenset'), n_ev() == 0)",
                  "others_deferred_unchanged": "implies(not isinstance(obj, (bytes, str)), n_ev() == 1 and ev(0)[0] == 'Pickler.memoize' and ev(0)[1] is obj)"},
     ))
 
